@@ -155,7 +155,8 @@ Fixpoint d_opx (fuel : nat) (t : tr) : option opx :=
     | L [I 13; p; a] => do p' <- d_prob p; do a' <- d a; Some (WithProb p' a')
     | L [I 14; a; p; b; q; lim] => do a' <- d a; do p' <- d_prob p; do b' <- d b; do q' <- d_prob q; do l' <- dopt dnat lim;
                                    Some (Choice2 a' p' b' q' l')
-    | L [I 15; thr; a; b] => do t' <- dnat thr; do a' <- dopt d a; do b' <- dopt d b; Some (IfLen t' a' b')
+    | L [I 15; thr; a; b] => do t' <- dnat thr; do a' <- dopt d a; do b' <- dopt d b;
+                             Some (IfLen t' (match a' with Some x => x | None => Ident end) (match b' with Some x => x | None => Ident end))
     | L [I 16; a] => do a' <- d a; Some (Each a')
     | L [I 17; m] => do m' <- dopt dnat m; Some (Flatten m')
     | L [I 18; m; a] => do m' <- dnat m; do a' <- d a; Some (Until m' a')
